@@ -67,7 +67,7 @@ def run(ctx):
         "layer G (Verus, contracts/implitem.rs): to_ref_elem == ref_elem (looks through parentheses/groups, only a plain `&T` is the reference form), to_rhs == rhs_of (the single type argument with Self written out, else the self type), ref_type_with, Args::from_attr_args (which forms are requested); syn's Type / PathSegment / Punctuated are stand-ins with the variant and field names the functions look at (Punctuated modelled as Vec), expand_self / ref_type uninterpreted",
     ]
     cov = dict(st)
-    cov.update({"obligations": st["kani_harnesses"] + g["obligations"], "discharged": st["kani_verified"] + g["discharged"], "g_functions_under_contract": g["functions_under_contract"], "g_units": g["units"],
+    cov.update({"obligations": st["kani_harnesses"] + g["obligations"], "discharged": st["kani_verified"] + g["discharged"], "g_functions_under_contract": g["functions_under_contract"], "g_units": g["units"], "assumption_scan": g["assumption_scan"], "solver_ms": g["smt_ms"],
                 "checker_cmd": "cargo kani -Z function-contracts -j 16 --output-format terse (crates build/e/C09/*)",
                 "trusted_base": ["Kani 0.68.0 / CBMC 6.11", "rustc (real proc-macro expansion)"],
                 "functions_under_contract": ["w_bin_<form> / w_assign_<form> / w_bin_from_assign wrappers of every generated operator impl"],
